@@ -282,10 +282,58 @@ pub fn mutations(j: &Value, w: &World, adv: &World, msg: &[u8], rng: &mut ChaCha
                 v["signatures"][s][0]["sigma"] = to_bytes_json(&sig);
                 push("sigma_plus_random_point", v);
             }
+            // sigma + T with T OUTSIDE the prime-order subgroup: the pairing check cannot see T, the
+            // bytes (hence the lottery draws) change. A verifier that does not insist on sigma in G1
+            // lets the signer grind for indices; claimed: the indices the new bytes win
+            for g in 0..3u8 {
+                let Some(t) = g1::small_order_point(&[&sigma[..], &[g]].concat()) else { continue };
+                let Some(sig2) = g1::add(&sigma, &t) else { continue };
+                let stake = j["signatures"][s][1][1].as_u64().unwrap_or(0);
+                let won: Vec<u64> = (0..m)
+                    .filter(|&i| {
+                        let ev = refagg::draw(&msgp, i, &sig2);
+                        crate::reflot::won_f64(w.params.phi_f, &ev, stake, w.total_stake) == Some(true)
+                    })
+                    .filter(|i| (0..n).all(|t| t == s || !idx_list(j, t).contains(i)))
+                    .collect();
+                let mut v = j.clone();
+                v["signatures"][s][0]["sigma"] = to_bytes_json(&sig2);
+                push("sigma_plus_point_outside_the_subgroup_honest_indices", v.clone());
+                if !won.is_empty() {
+                    set_idx(&mut v, s, &won);
+                    push("sigma_plus_point_outside_the_subgroup_with_the_indices_it_wins", v);
+                }
+            }
             // truncated / extended byte array
             let mut v = j.clone();
             v["signatures"][s][0]["sigma"] = to_bytes_json(&sigma[..sigma.len().saturating_sub(1)]);
             push("sigma_truncated", v);
+        }
+        // --- an extra entry APPENDED behind the honest ones, batch path untouched: more leaves than
+        // path indices (a path check that only walks the indices never looks at it)
+        if s == 0 {
+            let a = &adv.parties[rnd::usize_below(rng, adv.parties.len())];
+            if let Some(sig) = g1::sign(&a.sk, &msgp) {
+                for (tag, slot) in [("slot_past_the_last", w.nr_leaves), ("slot_of_the_last_entry_plus_1", j["signatures"][n - 1][0]["signer_index"].as_u64().unwrap_or(0).wrapping_add(1)), ("slot_zero", 0)] {
+                    let won: Vec<u64> = (0..m)
+                        .filter(|&i| {
+                            let ev = refagg::draw(&msgp, i, &sig);
+                            crate::reflot::won_f64(w.params.phi_f, &ev, w.total_stake, w.total_stake) == Some(true)
+                        })
+                        .filter(|i| (0..n).all(|t| !idx_list(j, t).contains(i)))
+                        .collect();
+                    let mut e = j["signatures"][0].clone();
+                    e[0]["sigma"] = to_bytes_json(&sig);
+                    e[0]["signer_index"] = json!(slot);
+                    e[1][0] = to_bytes_json(&a.vk);
+                    e[1][1] = json!(w.total_stake);
+                    let mut v = j.clone();
+                    v["signatures"].as_array_mut().unwrap().push(e);
+                    let last = n;
+                    set_idx(&mut v, last, &won);
+                    push(&format!("entry_appended_foreign_key_own_sigma_path_untouched:{tag}"), v);
+                }
+            }
         }
         // --- drop / duplicate the entry
         {
